@@ -8,7 +8,7 @@ EXP = {  # test: (sc expectation, wmm expectation); None = no violation, else cl
  'self_mp_atomic_relaxed': (None, 'ORACLE'), 'self_sb_fence': (None, None), 'self_sc_store_fence': (None, None),
  'self_sb_mixed': (None, 'ORACLE'), 'self_sb_sc': (None, None), 'self_sb_relaxed': (None, 'ORACLE'),
  'self_mp_fence_ok': (None, None), 'self_mp_release_ok': (None, None), 'self_mp_relaxed_race': ('RACE', 'RACE'),
- 'self_fetch_add_ok': (None, None), 'self_accessor_calls': ('ORACLE', 'ORACLE'), 'self_lost_update': ('ORACLE', 'ORACLE'),
+ 'self_fetch_add_ok': (None, None), 'self_weak_cas_single_shot': (None, None), 'self_accessor_calls': ('ORACLE', 'ORACLE'), 'self_lost_update': ('ORACLE', 'ORACLE'),
 }
 def run(t, mode, extra=()):
     out = subprocess.run(['./build/selftest.prod', '--test', t, '--c', '2', '--d', '2', '--mode', mode, '--max-vio', '1', *extra],
@@ -31,6 +31,10 @@ for t in listed:
 j = run('self_accessor_calls', 'sc', ('--c', '0'))
 ok = not j['violation_records'] and j['exhaustive']
 print(f"{'ok  ' if ok else 'FAIL'} self_accessor_calls c=0 -> {[v['cls'] for v in j['violation_records']]} (no false spin-yield)")
+bad += not ok
+j = run('self_weak_cas_single_shot', 'sc', ('--s', '1'))
+ok = bool(j['violation_records']) and j['violation_records'][0]['cls'] == 'ORACLE'
+print(f"{'ok  ' if ok else 'FAIL'} self_weak_cas_single_shot s=1 -> {[v['cls'] for v in j['violation_records']]} (spurious failure explored)")
 bad += not ok
 j = run('self_choose', 'sc', ('--opt', 'plant=1'))
 ok = bool(j['violation_records']) and j['violation_records'][0]['cls'] == 'ORACLE'
